@@ -4,6 +4,7 @@ import groups_parse
 import groups_macro
 import groups_scan
 import groups_static
+import groups_comp
 
 
 def all_groups():
@@ -13,6 +14,7 @@ def all_groups():
     gs += groups_parse.groups()
     gs += groups_macro.groups()
     gs += groups_scan.groups()
+    gs += groups_comp.groups()
     # C18 (sequential half): the frame obligations of EVERY function under contract - see framework.attributed
     for g in gs:
         if 'C18' not in g.props and not g.name.endswith('_layout'):
